@@ -4,7 +4,7 @@
    from /repo on every run: the statements below are re-checked against the current constants. *)
 From Coq Require Import List Arith NArith Ascii String Bool.
 From PV Require Import Base.Bytes ABI.Types ABI.Spec ABI.Descr Gen.Tables Router.Args
-  Proofs.RouterArgsLists Proofs.RouterArgsProof Proofs.RouterArgsGlue.
+  Proofs.RouterArgsLists Proofs.RouterArgsProof Proofs.RouterArgsGlue Proofs.RouterArgsCells.
 Import ListNotations.
 
 (* ARG BINDING.  For EVERY method signature (any number of parameters; plain, transaction and
@@ -92,6 +92,54 @@ Print Assumptions C09_cutoff_constant.
 Theorem C09_plan_shape : forall tys, Forall2 plan_shape tys (binding_plan tys).
 Proof. exact binding_plan_shape. Qed.
 Print Assumptions C09_plan_shape.
+
+(* BOTH GLUE FLAVOURS.  The decoding steps of the scratch-slot glue and of the frame-pointer glue (cells
+   of the `proto 0 0` caster: argument i in frame cell i (+1 when the method has an output), the tuple
+   instance in the last cell, output_temp in cell 0), executed in emission order (application
+   arguments incl. the tuple, transaction parameters, de-tupling) and read back in declaration order,
+   give the handler exactly what the binding plan evaluates to — for ANY application arguments and group
+   (cells of distinct instances never alias; the tuple is decoded before it is de-tupled). *)
+Theorem C09_glue_storage_agrees_with_plan :
+  forall member fl has_out tys args group gi bounds,
+    eval_all member args group gi (binding_plan tys) = Some bounds ->
+    exists cs, exec_gsteps member args group gi [] (decode_steps fl has_out tys) = Some cs /\
+               read_args cs (map (arg_cell fl has_out) (seq 0 (List.length tys))) = Some bounds.
+Proof. exact glue_equiv_main. Qed.
+Print Assumptions C09_glue_storage_agrees_with_plan.
+
+(* END TO END (model).  A call made by the ARC-4 client, placed anywhere in a group, run through the glue
+   of either flavour with an arbitrary handler h: h is invoked on arguments bound as the caller passed
+   them (args_ok); the outcome is Failed iff h fails (or yields no / an unencodable value for a
+   non-void method), else Approved with h's own log followed — for a non-void method — by exactly one
+   entry, return prefix ++ ARC-4 encoding of h's result. *)
+Theorem C09_routed_call_correct :
+  forall (member : list ty -> nat -> bytes -> option bytes),
+    (forall ts vs bs j t v,
+        arc4_encode (TTuple None ts) (VList vs) = Some bs ->
+        nth_error ts j = Some t -> nth_error vs j = Some v ->
+        member ts j bs = arc4_encode t v) ->
+  forall fl sel sender app_id s args c before me after (h : handler),
+    client_encode sel sender app_id s args = Some c ->
+    exists bounds,
+      args_ok sender app_id c (group_of before c me after) (List.length before) 0 (combine (s_params s) args) bounds /\
+      run_glue member fl s h (c_args c) (group_of before c me after) (group_index_of before c) =
+        match h bounds with
+        | None => Failed
+        | Some (logs, res) =>
+            match s_ret s with
+            | None => Approved logs
+            | Some t =>
+                match res with
+                | Some r => match arc4_encode t r with
+                            | Some e => Approved (logs ++ [return_prefix ++ e])
+                            | None => Failed
+                            end
+                | None => Failed
+                end
+            end
+        end.
+Proof. exact routed_call_main. Qed.
+Print Assumptions C09_routed_call_correct.
 
 (* RETURN.  An approved call of a non-void method: the handler ran once on the decoded arguments, and
    the call's log is the handler's log followed by exactly one entry, return prefix ++ encoding of the
